@@ -175,6 +175,24 @@ def cases(draw):
     return {"x": x, "y": y, "roi": draw(roi_spec(x))}
 
 
+def quarter_turn_cases(tier):
+    """fixed grids of elements x non-square rectangles at every multiple of pi/2 (and just beside) x the four axis-kind combinations"""
+    cats = ["a", "b", "c", "d", "e"]
+    nums = [0.0, 1.0, 2.0, 3.0, 4.0]
+    cols = {"c": {"kind": "cat", "vals": [cats[i % 5] for i in range(25)], "order": None},
+            "n": {"kind": "float", "vals": [nums[i % 5] for i in range(25)]}}
+    cols2 = {"c": {"kind": "cat", "vals": [cats[i // 5] for i in range(25)], "order": None},
+             "n": {"kind": "float", "vals": [nums[i // 5] for i in range(25)]}}
+    for kx in "cn":
+        for ky in "cn":
+            for k in range(-2, 7):
+                for eps in (0.0, 1e-10, 1e-3):
+                    for rect in ((0.6, 3.4, 1.6, 2.4), (1.6, 2.4, 0.6, 3.4), (-0.4, 2.4, 2.6, 4.4)):
+                        yield {"x": cols[kx], "y": cols2[ky],
+                               "roi": {"k": "rect", "xmin": rect[0], "xmax": rect[1], "ymin": rect[2], "ymax": rect[3], "theta": k * math.pi / 2 + eps}}
+
+
 def checks(tier):
     n = {"quick": 10000, "thorough": 50000}.get(tier, 10)
-    return [Check("roi_to_subset_state", fn_roi, strategy=cases(), examples=n)]
+    return [Check("roi_to_subset_state", fn_roi, strategy=cases(), examples=n),
+            Check("rectangles_at_quarter_turns", fn_roi, enum=quarter_turn_cases)]
